@@ -316,9 +316,9 @@ func (s *Sorter) SortedBlocks(ctx context.Context, removedCols map[int]struct{},
 			}
 
 			// append min row to block
-			minRow = r.RemoveFrom(minRow)
 			row := dec.Decode(minRow)
 			slice.CopyValuesFromIndices(row, rowPK, pkIndices)
+			minRow = r.RemoveFrom(minRow)
 			pkOK := pkIsDifferent(rowPK, prevRowPK, &firstRow)
 			if pkOK {
 				m := len(blk)
